@@ -88,7 +88,115 @@ func handledLocally(repo, file string) ([]string, error) {
 	return out, nil
 }
 
+// "func#k" for every `if` whose condition mentions an error value (err != nil, errors.Is(err, …), …) and whose body
+// returns with a nil error: the places where a failure is turned into success
+func errToNil(repo, file string) ([]string, error) {
+	_, af, err := parseOne(repo, file)
+	if err != nil {
+		return nil, err
+	}
+	mentionsErr := func(e ast.Expr) bool {
+		found := false
+		ast.Inspect(e, func(x ast.Node) bool {
+			if id, ok := x.(*ast.Ident); ok && strings.HasPrefix(strings.ToLower(id.Name), "err") && id.Name != "errors" {
+				found = true
+			}
+			return true
+		})
+		return found
+	}
+	var out []string
+	for _, d := range af.Decls {
+		fd, ok := d.(*ast.FuncDecl)
+		if !ok || fd.Body == nil || fd.Type.Results == nil {
+			continue
+		}
+		// only functions whose last result is an error
+		rs := fd.Type.Results.List
+		if id, ok := rs[len(rs)-1].Type.(*ast.Ident); !ok || id.Name != "error" {
+			continue
+		}
+		k := 0
+		ast.Inspect(fd.Body, func(x ast.Node) bool {
+			is, ok := x.(*ast.IfStmt)
+			if !ok || !mentionsErr(is.Cond) {
+				return true
+			}
+			k++
+			for _, st := range is.Body.List {
+				if rt, ok := st.(*ast.ReturnStmt); ok && len(rt.Results) > 0 {
+					if id, ok := rt.Results[len(rt.Results)-1].(*ast.Ident); ok && id.Name == "nil" {
+						out = append(out, fmt.Sprintf("%s#%d", fd.Name.Name, k))
+					}
+				}
+			}
+			return true
+		})
+	}
+	sort.Strings(out)
+	return out, nil
+}
+
+// value expressions given to the block-position field of the events built by a downloader's log handlers
+func blockPosExprs(repo, file string) ([]string, error) {
+	fset, af, err := parseOne(repo, file)
+	if err != nil {
+		return nil, err
+	}
+	seen := map[string]bool{}
+	ast.Inspect(af, func(x ast.Node) bool {
+		if kv, ok := x.(*ast.KeyValueExpr); ok {
+			if k, ok := kv.Key.(*ast.Ident); ok && (k.Name == "BlockPosition" || k.Name == "BlockPos") {
+				seen[nodeStr(fset, kv.Value)] = true
+			}
+		}
+		return true
+	})
+	var out []string
+	for k := range seen {
+		out = append(out, k)
+	}
+	sort.Strings(out)
+	return out, nil
+}
+
 func syncFacts(repo string, w *strings.Builder) error {
+	// 0. failures turned into success, log positions, the loop's sampling order
+	for _, f := range []struct{ name, file string }{
+		{"bridgeProcessor", "bridgesync/processor.go"},
+		{"l1infoProcessor", "l1infotreesync/processor.go"},
+		{"gerProcessor", "lastgersync/processor.go"},
+		{"evmDriver", "sync/evmdriver.go"},
+	} {
+		xs, err := errToNil(repo, f.file)
+		if err != nil {
+			return err
+		}
+		fmt.Fprintf(w, "/-- %s: `if <condition on an error>` blocks that return a nil error (function#ordinal) -/\ndef errToNil_%s : List String := %s\n", f.file, f.name, leanStrList(xs))
+	}
+	for _, f := range []struct{ name, file string }{
+		{"l1info", "l1infotreesync/downloader.go"},
+		{"bridge", "bridgesync/downloader.go"},
+		{"ger", "lastgersync/evmdownloader_pp.go"},
+	} {
+		xs, err := blockPosExprs(repo, f.file)
+		if err != nil {
+			return err
+		}
+		fmt.Fprintf(w, "/-- %s: what the log handlers store as an event's position inside its block -/\ndef blockPosExprs_%s : List String := %s\n", f.file, f.name, leanStrList(xs))
+	}
+	{
+		_, af, err := parseOne(repo, "sync/evmdownloader.go")
+		if err != nil {
+			return err
+		}
+		var order []string
+		if fd := findFunc(af, "EVMDownloader", "Download"); fd != nil {
+			order = callOrder(fd, set("GetLastFinalizedBlock", "GetEventsByBlockRange", "reportBlocks", "reportEmptyBlock"))
+		}
+		fmt.Fprintf(w, "/-- `EVMDownloader.Download`: the finalized block is sampled BEFORE the range is fetched (so a block reported as finalized was finalized when its header was checked) -/\ndef downloadLoopOrder : List String := %s\n\n", leanStrList(order))
+	}
+
 	// 1. error propagation in the stores' write paths
 	for _, f := range []struct{ name, file string }{
 		{"bridgeProcessor", "bridgesync/processor.go"},
